@@ -43,7 +43,7 @@ class Case(object):
 
   def __init__(self, prop, target, name, scenario, bounds=None, replay_kind=None,
                timeout_ms=None, max_paths=4000, assumptions=(), lo=-40, hi=40, term_mode=False,
-               setup=None):
+               setup=None, precise_ties=False):
     self.prop = prop
     self.target = target
     self.name = name
@@ -56,6 +56,7 @@ class Case(object):
     self.lo, self.hi = lo, hi
     self.term_mode = term_mode
     self.setup = setup
+    self.precise_ties = precise_ties
 
   @property
   def id(self):
@@ -130,6 +131,7 @@ def run_case(case, tier, known):
          "functions": {}, "lib_used": [], "notes": [], "samples": [], "cover": "ok",
          "replay_kind": case.replay_kind, "assumptions": case.assumptions}
   L.USED.clear()
+  L.PRECISE_TIES[0] = bool(getattr(case, "precise_ties", False))
   try:
     ip = new_interp()
     ip.term_mode = case.term_mode
